@@ -11,6 +11,7 @@ TECHNIQUE = 'definition-based reference monitor on poly_a_trim_index, NEndTrimme
 LEVEL_TEXT = 'Each call of the real functions on generated sequences/quality strings (20%-boundary tails, ties, empty, all-A, all-N, lower case, every length residue mod 4) is compared with the enumerated definition; out-of-range quality characters are judged by the sanitizers only.'
 LEVEL_TEXT += ' --max-ee, --max-aer and --max-n are also run at the command line with --quality-base 33 and 64 and compared read by read with the definitions, including N fractions exactly at the cut-off.'
 LEVEL_TEXT += ' Reads of several hundred to a few thousand bases with several A-rich regions, U and IUPAC characters in the tails, and expected_errors under other quality bases (0-255: refused or the defined sum).'
+LEVEL_TEXT += ' Thresholds 0 for --max-ee and non-integral counts for --max-n at the command line.'
 LEVEL_NOTE = 'Trusted base: refmodel.poly_a_index/nend_trim/expected_errors/too_many_n. Float comparison of expected errors with rel. tolerance 1e-5; thresholds compared only when the reference is clearly on one side, except exact Q0 sums.'
 VARIANTS = {"quick": ["plain", "asan"], "thorough": ["plain", "asan"]}
 BUDGET_S = {"quick": 120, "thorough": 2400}
